@@ -392,12 +392,13 @@ func rangeElem(v ssa.Value) (slice ssa.Value, ok bool) {
 	if !isIA {
 		return nil, false
 	}
-	if !isRangeIndex(ia.Index) {
+	if !isLoopIndexOver(ia.Index, ia.X) {
 		return nil, false
 	}
 	return ia.X, true
 }
 
+// isRangeIndex: idx is the index of a `for range` loop (rotated rangeindex form).
 func isRangeIndex(idx ssa.Value) bool {
 	bo, ok := idx.(*ssa.BinOp)
 	if !ok || bo.Op != token.ADD {
@@ -408,6 +409,58 @@ func isRangeIndex(idx ssa.Value) bool {
 	}
 	phi, isPhi := bo.X.(*ssa.Phi)
 	return isPhi && phi.Comment == "rangeindex"
+}
+
+// isLoopIndexOver: idx visits every index of slice in order: either the index of a `for range`
+// loop, or the counter of `for i := 0; i < len(slice); i++` (counter starts at 0, every back edge
+// adds exactly 1, the loop condition is i < len(slice)).
+func isLoopIndexOver(idx, slice ssa.Value) bool {
+	if isRangeIndex(idx) {
+		return true
+	}
+	phi, ok := idx.(*ssa.Phi)
+	if !ok {
+		return false
+	}
+	h := phi.Block()
+	sawInit, sawBack := false, false
+	for i, e := range phi.Edges {
+		p := h.Preds[i]
+		if h.Dominates(p) {
+			bo, isBo := e.(*ssa.BinOp)
+			if !isBo || bo.Op != token.ADD || bo.X != ssa.Value(phi) {
+				return false
+			}
+			if one, isC := ir.ConstInt(bo.Y); !isC || one != 1 {
+				return false
+			}
+			sawBack = true
+		} else {
+			if z, isC := ir.ConstInt(e); !isC || z != 0 {
+				return false
+			}
+			sawInit = true
+		}
+	}
+	if !sawInit || !sawBack || len(h.Instrs) == 0 {
+		return false
+	}
+	iff, isIf := h.Instrs[len(h.Instrs)-1].(*ssa.If)
+	if !isIf {
+		return false
+	}
+	cond, isBo := iff.Cond.(*ssa.BinOp)
+	if !isBo || cond.Op != token.LSS || cond.X != ssa.Value(phi) {
+		return false
+	}
+	lc, isCall := cond.Y.(*ssa.Call)
+	if !isCall {
+		return false
+	}
+	if b, isB := lc.Call.Value.(*ssa.Builtin); !isB || b.Name() != "len" {
+		return false
+	}
+	return lc.Call.Args[0] == slice || sameLoad(lc.Call.Args[0], slice)
 }
 
 func stdCall(v ssa.Value, pkg, name string) *ssa.Call {
